@@ -74,7 +74,7 @@ theorem superSub_blames (p : String) (env : Env) (s : Schema) (e : Entity) (d : 
 /-- **MISSING_SUPERTYPE blames a subtype that really does not list the entity**: arguments (entity, subtype), on the subtype's line -/
 theorem missingSuper_blames (p : String) (s : Schema) (e : Entity) (d : Diag) (h : d ∈ missingSuperDiags p s e) :
     ∃ sub ∈ subtypesOf s e, ∃ se, findEntity s sub = some se ∧ e.name ∉ supersOf s se ∧
-      d.line = se.line ∧ d.args = [sArg e.name, sArg se.name] := by
+      d.line = se.line ∧ d.args = [sArg e.name, sArg (declName se.name)] := by
   simp only [missingSuperDiags, List.mem_filterMap] at h
   obtain ⟨sub, hs, hd⟩ := h
   refine ⟨sub, hs, ?_⟩
@@ -243,7 +243,7 @@ theorem pass2_blames (f : File) (fb : Bool) (s : Schema) (d : Diag) (h : d ∈ p
     arguments (attribute, supertype), on the attribute's line -/
 theorem overload_blames (p : String) (s : Schema) (fuel : Nat) (e : Entity) (d : Diag) (h : d ∈ overloadDiags p s fuel e) :
     ∃ a ∈ e.attrs, a.redeclOf = none ∧ ∃ sup ∈ supersOf s e, namedAttr s a.name fuel sup = some true ∧
-      d.line = a.line ∧ d.args = [sArg a.name, sArg sup] := by
+      d.line = a.line ∧ d.args = [sArg a.name, sArg (declName sup)] := by
   simp only [overloadDiags, List.mem_filterMap] at h
   obtain ⟨⟨r, d0⟩, hx, hd⟩ := h
   simp only at hd
@@ -269,7 +269,7 @@ theorem redecl_blames (p : String) (s : Schema) (fuel : Nat) (e : Entity) (d : D
     ∃ a ∈ e.attrs, ∃ sup, a.redeclOf = some sup ∧ d.line = a.line ∧
       ((d.code = LibErrors.REDECL_NO_SUCH_SUPERTYPE ∧ d.args = [sArg sup, sArg a.name] ∧
           (sup = e.name ∨ isAncestor s sup fuel e.name = false)) ∨
-       (d.code = LibErrors.REDECL_NO_SUCH_ATTR ∧ d.args = [sArg a.name, sArg sup] ∧
+       (d.code = LibErrors.REDECL_NO_SUCH_ATTR ∧ d.args = [sArg a.name, sArg (declName sup)] ∧
           ∃ se, findEntity s sup = some se ∧ se.attrs.any (·.name = a.name) = false)) := by
   simp only [redeclDiags, List.mem_flatMap] at h
   obtain ⟨a, ha, hd⟩ := h
